@@ -95,4 +95,27 @@ theorem varyCovers_addVary (v : List Str) : varyCovers (addVary v) = true := by
           rw [this]; rfl
       · exact varyCovers_append_origin v
 
+/-- the auxiliary headers of a granted response, as documented per handler -/
+theorem handle_aux (hasRules : Bool) (rules : List Rule) (req : Req) (backend : Hdr) (r : Rule)
+    (ho : req.origin ≠ []) (hg : governing hasRules rules = some r) (ha : allowedBy req.origin r = true) :
+    let res := handle hasRules rules req backend
+    let base := baseHdr res.1 backend
+    let pre := res.1 == Kind.P
+    res.2.acac = (if r.creds then [sTrue] else base.acac) ∧
+    res.2.acam = (if pre && r.methods.length > 0 then [joinComma r.methods] else base.acam) ∧
+    res.2.acah = (if pre && r.headers.length > 0 then [joinComma r.headers] else base.acah) ∧
+    res.2.acma = (match (if pre then r.maxAge else none) with | some m => [itoa m] | none => base.acma) ∧
+    res.2.aceh = (if !pre && r.expose.length > 0 then [joinComma r.expose] else base.aceh) := by
+  unfold handle governing at *
+  simp only [hg]
+  by_cases hp : isPreflight req = true
+  · simp only [hp, if_true, setPreflight, matchOrigin_eq, ha, baseHdr]
+    simp only [Bool.not_true, Bool.false_eq_true, if_false]
+    cases r.creds <;> cases hm : r.maxAge <;> by_cases h1 : r.methods.length > 0 <;> by_cases h2 : r.headers.length > 0 <;>
+      simp [h1, h2]
+  · simp only [hp, ho, beq_iff_eq, if_false, setNonPreflight, matchOrigin_eq, ha, baseHdr]
+    simp only [Bool.not_true, Bool.false_eq_true, if_false]
+    cases r.creds <;> by_cases h1 : r.expose.length > 0 <;> simp [h1]
+
+
 end BfeVerif.C52
